@@ -134,22 +134,50 @@ func ZZAdversary3() { zzAdversary(2, 2*piece.BlockSize, 3) }
 func ZZAdversaryDeep() { zzAdversary(2, 2*piece.BlockSize, 4) }
 
 // zzHonest: an honest peer answers every request with exactly the requested
-// bytes of the true piece; the download completes within #blocks+1 rounds and
+// bytes of the true piece and may choke once mid-piece (see below); the
+// download completes within #blocks+3 rounds and
 // the assembled buffer equals the true content (padding = zero).
 func zzHonest(maxSec int, maxLen uint32) {
 	d, pe, _, blocks, total := zzNew(maxSec, maxLen)
 	truth := vrt.Bytes("true_piece_content", int(total))
 	q := vrt.Choice("queue_length", 3) + 1
+	// the honest source may choke us once, at an arbitrary round, after serving an
+	// arbitrary part of what was requested in that round; one more requested
+	// block may already be on the wire and still arrive; the rest is dropped
+	// (a fast-extension peer rejects it instead). It unchokes afterwards.
+	chokeRound := vrt.Choice("choke_in_round", 4) // 0 = never
 	served := 0
 	rounds := 0
 	for !d.Done() {
 		rounds++
-		vrt.Assert(rounds <= len(blocks)+1, "honest download does not complete")
-		if rounds > len(blocks)+1 {
+		vrt.Assert(rounds <= len(blocks)+3, "honest download does not complete")
+		if rounds > len(blocks)+3 {
 			return
 		}
 		d.RequestBlocks(q)
 		vrt.Assert(len(pe.reqs) > served, "no progress: nothing requested although the piece is incomplete")
+		if rounds == chokeRound && !d.AllowedFast { // (an allowed-fast download is served regardless of choking)
+			vrt.Cover(true, "honest source chokes mid-piece")
+			keep := vrt.Choice("served_before_choke", 3)
+			for ; served < len(pe.reqs) && keep > 0; served, keep = served+1, keep-1 {
+				r := pe.reqs[served]
+				vrt.Assert(d.GotBlock(r.begin, truth[r.begin:r.begin+r.length]) == nil, "honest block refused")
+			}
+			d.Choked()
+			if served < len(pe.reqs) && vrt.Bool("one_block_already_on_the_wire") {
+				r := pe.reqs[served]
+				served++
+				err := d.GotBlock(r.begin, truth[r.begin:r.begin+r.length])
+				vrt.Assert(err == nil || err == ErrBlockNotRequested, "honest late block refused as invalid")
+			}
+			for ; served < len(pe.reqs); served++ {
+				if pe.fast {
+					r := pe.reqs[served]
+					d.Rejected(r.begin, r.length)
+				}
+			}
+			continue
+		}
 		for ; served < len(pe.reqs); served++ {
 			r := pe.reqs[served]
 			err := d.GotBlock(r.begin, truth[r.begin:r.begin+r.length])
@@ -177,4 +205,5 @@ func ZZHonestPiece() { zzHonest(3, 4*piece.BlockSize) }
 //
 //vrt:cover ZZHonestPieceQuick piece made only of padding
 //vrt:cover ZZHonestPieceQuick several blocks
+//vrt:cover ZZHonestPieceQuick honest source chokes mid-piece
 func ZZHonestPieceQuick() { zzHonest(2, 2*piece.BlockSize) }
